@@ -1,5 +1,6 @@
 import Amgcl.Proofs.SolverBiCGStabLeft
 import Amgcl.Proofs.KrylovGMRESOuter
+import Amgcl.Proofs.KrylovFGMRESRestart
 import Amgcl.Proofs.KrylovGMRESRestartExample
 import Mathlib.Algebra.Order.Field.Rat
 /-!
@@ -21,6 +22,10 @@ import Mathlib.Algebra.Order.Field.Rat
 * `gmres_breakdown_exact`: when the Arnoldi process breaks down in the last pass of a cycle and the preconditioned operator
   `A Pl` / `Pl A` is injective, the iterate the cycle returns has measured residual EXACTLY zero, the true residual `f − A x` is
   the zero vector, the next `norm_r` is `0` and the call stops there.
+
+* `fgmres_cycle_monotone`, `fgmres_restart_monotone`, `fgmres_restart_monotone_call`, `fgmres_breakdown_exact`: the same for
+  FGMRES with an ARBITRARY preconditioner function (only `(P u).size = n`; true residual `f − A x`); for the breakdown
+  statement `A` injective and the stored `z_0..z_m` linearly independent (automatic for an injective linear preconditioner).
 
 Hypotheses as in C05b: ordered field, `stdIp`, the preconditioner denotes a fixed linear map (`PDenotes`), the square root
 exact on the numbers the cycles apply it to (`RootsExact`, implied by `hsqrt : ∀ x ≥ 0, sqrt x · sqrt x = x`; decidable on
@@ -390,5 +395,137 @@ example : (GMRES.head .right stdIp Amgcl.rsqrt Ar Pg fr (GMRES.cycle prmr stdIp 
     (cycleStart_head .right Amgcl.rsqrt Ar Pg fr _ (by decide +kernel)) (hrootsr 0 (by decide)) (by decide +kernel)
 
 end nonvacuousRestart
+
+/-! ## Restarted FGMRES (arbitrary preconditioner function) -/
+section fgmres
+variable {K : Type} [Field K] [LinearOrder K] [IsStrictOrderedRing K]
+variable (n : ℕ) (A : CRS K) (hA : A.WF) (hn : A.nrows = n) (hm : A.ncols = n)
+  (P : Vec K → Vec K) (hPsz : ∀ u, (P u).size = n) (sqrt : K → K) (f : Vec K)
+include hA hn hm hPsz
+
+/-- **one restart cycle of the FGMRES model does not increase the residual** `‖f − A x‖²` — for ANY preconditioner function,
+whatever the pass count of the inner loop, with or without breakdown (roots exact on the numbers the cycle meets, read off
+the simulating right-preconditioned GMRES run `toG st`; threshold not negative). -/
+theorem fgmres_cycle_monotone (prm : FGMRES.Params K) (epsT : K) (heps : ¬ epsT < 0)
+    (st : FGMRES.St K) (hst : FCycleStart sqrt A f st) (hx : st.x.size = n)
+    (hroots : RootsExact .right sqrt A P (toG st) (FGMRES.inner prm stdIp sqrt A P epsT st).j) :
+    stdIp (residual f A (FGMRES.cycle prm stdIp sqrt A P epsT st).x)
+        (residual f A (FGMRES.cycle prm stdIp sqrt A P epsT st).x)
+      ≤ stdIp (residual f A st.x) (residual f A st.x) :=
+  fcycle_monotone n A hA hn hm P hPsz sqrt f st hst hx prm epsT heps hroots
+
+/-- **the restarted FGMRES sequence as a whole is monotone**: the call returns `fouterPass … init k` for the first `k` whose
+stopping test succeeds, and `‖f − A x⁽ʲ⁾‖² ≤ ‖f − A x⁽ⁱ⁾‖²` for `i ≤ j ≤ k`. -/
+theorem fgmres_restart_monotone (prm : FGMRES.Params K) (eps : K) (ws : FGMRES.Work K)
+    (x0 : Vec K) (hx0 : x0.size = n) (nf : K) (hp : prologueA prm.nsSearch stdIp sqrt eps f = .go nf)
+    (heps : 0 < FGMRES.epsTol prm nf)
+    (hroots : ∀ i, i < prm.maxiter →
+      FGMRES.stop prm.maxiter (FGMRES.epsTol prm nf)
+        (fouterPass prm sqrt A P f (FGMRES.epsTol prm nf) (FGMRES.init stdIp sqrt A ws f x0) i) = false →
+      RootsExact .right sqrt A P (toG (fouterPass prm sqrt A P f (FGMRES.epsTol prm nf) (FGMRES.init stdIp sqrt A ws f x0) i))
+        (FGMRES.inner prm stdIp sqrt A P (FGMRES.epsTol prm nf)
+          (fouterPass prm sqrt A P f (FGMRES.epsTol prm nf) (FGMRES.init stdIp sqrt A ws f x0) i)).j) :
+    ∃ k, k ≤ prm.maxiter ∧
+      FGMRES.run prm stdIp sqrt eps A P ws f x0
+        = (.ok ((fouterPass prm sqrt A P f (FGMRES.epsTol prm nf) (FGMRES.init stdIp sqrt A ws f x0) k).iter,
+                (fouterPass prm sqrt A P f (FGMRES.epsTol prm nf) (FGMRES.init stdIp sqrt A ws f x0) k).normR / nf),
+           (fouterPass prm sqrt A P f (FGMRES.epsTol prm nf) (FGMRES.init stdIp sqrt A ws f x0) k).x,
+           (fouterPass prm sqrt A P f (FGMRES.epsTol prm nf) (FGMRES.init stdIp sqrt A ws f x0) k).w) ∧
+      (∀ i, i < k → FGMRES.stop prm.maxiter (FGMRES.epsTol prm nf)
+        (fouterPass prm sqrt A P f (FGMRES.epsTol prm nf) (FGMRES.init stdIp sqrt A ws f x0) i) = false) ∧
+      ∀ i j, i ≤ j → j ≤ k →
+        stdIp (residual f A (fouterPass prm sqrt A P f (FGMRES.epsTol prm nf) (FGMRES.init stdIp sqrt A ws f x0) j).x)
+            (residual f A (fouterPass prm sqrt A P f (FGMRES.epsTol prm nf) (FGMRES.init stdIp sqrt A ws f x0) j).x)
+          ≤ stdIp (residual f A (fouterPass prm sqrt A P f (FGMRES.epsTol prm nf) (FGMRES.init stdIp sqrt A ws f x0) i).x)
+            (residual f A (fouterPass prm sqrt A P f (FGMRES.epsTol prm nf) (FGMRES.init stdIp sqrt A ws f x0) i).x) := by
+  obtain ⟨k, hk, hfin, hstop, _⟩ := ffinal_eq_outerPass prm sqrt A P ws f x0 nf
+  refine ⟨k, hk, ?_, hstop, fun i j hij hj => ?_⟩
+  · rw [FGMRES.run_go _ _ _ _ _ _ _ _ _ nf hp, hfin]
+  · exact fouterPass_antitone n A hA hn hm P hPsz prm sqrt f _ heps _ (FGMRES.head_inv _ _ _ _ _)
+      (by rw [FGMRES.head_x]; exact hx0) k hstop (fun i hi => hroots i (by omega) (hstop i hi)) i j hij hj
+
+/-- … in particular the `x` an FGMRES call returns has `‖f − A x‖² ≤ ‖f − A x₀‖²` (global root hypothesis `hsqrt`). -/
+theorem fgmres_restart_monotone_call (prm : FGMRES.Params K) (eps : K) (ws : FGMRES.Work K)
+    (x0 : Vec K) (hx0 : x0.size = n) (nf : K) (hp : prologueA prm.nsSearch stdIp sqrt eps f = .go nf)
+    (heps : 0 < FGMRES.epsTol prm nf) (hsqrt : ∀ x, 0 ≤ x → sqrt x * sqrt x = x)
+    (it : ℕ) (res : K) (x : Vec K) (w : FGMRES.Work K)
+    (h : FGMRES.solve prm stdIp sqrt eps A P ws f x0 = .ok (it, res, x, w)) :
+    stdIp (residual f A x) (residual f A x) ≤ stdIp (residual f A x0) (residual f A x0) := by
+  obtain ⟨k, _, hrun, _, hmono⟩ := fgmres_restart_monotone n A hA hn hm P hPsz sqrt f prm eps ws x0 hx0 nf hp heps
+    (fun i _ _ => rootsExact_of_hsqrt .right sqrt hsqrt A P _ _)
+  rw [FGMRES.solve, hrun] at h
+  simp only [Run.toExcept, Except.ok.injEq, Prod.mk.injEq] at h
+  have h0 := hmono 0 k (Nat.zero_le k) (Nat.le_refl k)
+  rw [h.2.2.1] at h0
+  have hx0' : (fouterPass prm sqrt A P f (FGMRES.epsTol prm nf) (FGMRES.init stdIp sqrt A ws f x0) 0).x = x0 :=
+    FGMRES.init_x stdIp sqrt A ws f x0
+  rw [hx0'] at h0
+  exact h0
+
+/-- **breakdown returns the exact solution (FGMRES).**  If the last pass `j − 1` of a restart cycle of the model breaks down,
+`A` is injective and the stored vectors `z_0..z_{j−1}` (`z_i = P v_i`) are linearly independent — automatic for an injective
+linear preconditioner, a hypothesis for an arbitrary function —, the cycle returns `x` with `f − A x = 0` (the zero vector). -/
+theorem fgmres_breakdown_exact (prm : FGMRES.Params K) (epsT : K) (heps : ¬ epsT < 0)
+    (st : FGMRES.St K) (hst : FCycleStart sqrt A f st) (hx : st.x.size = n)
+    (hroots : RootsExact .right sqrt A P (toG st) (FGMRES.inner prm stdIp sqrt A P epsT st).j)
+    (hAinj : ∀ u : Fin n → K, matOf A n n *ᵥ u = 0 → u = 0)
+    (hindep : ∀ c : ℕ → K,
+      ∑ i ∈ Finset.range (FGMRES.inner prm stdIp sqrt A P epsT st).j,
+        c i • vecOf n ((FGMRES.inner prm stdIp sqrt A P epsT st).w.z.get i) = 0 →
+      ∀ i, i < (FGMRES.inner prm stdIp sqrt A P epsT st).j → c i = 0)
+    (hb : arnoldiNorm .right sqrt A P (toG st) ((FGMRES.inner prm stdIp sqrt A P epsT st).j - 1) = 0) :
+    residual f A (FGMRES.cycle prm stdIp sqrt A P epsT st).x = vclear n := by
+  obtain ⟨heq, hge, hcx⟩ := finner_eq prm sqrt A P epsT st
+  have hnb := finner_no_early_breakdown prm sqrt A P epsT heps st
+  rw [hcx]
+  rw [heq] at hindep
+  obtain ⟨m, hm'⟩ : ∃ m, (FGMRES.inner prm stdIp sqrt A P epsT st).j = m + 1 := ⟨_, (Nat.sub_add_cancel hge).symm⟩
+  rw [hm'] at hroots hnb hb hindep ⊢
+  rw [Nat.add_sub_cancel] at hb
+  rw [fInnerPass_j] at hindep
+  exact fbreakdown_exact n A hA hn hm P hPsz sqrt f st hst hx m hroots (fun i hi => hnb i (by omega)) hAinj hindep hb
+
+end fgmres
+
+/-! ### non-vacuity (FGMRES) over `ℚ` with `rsqrt`: the breakdown system with the NON-LINEAR preconditioner function
+`Pc u = (u₀³,u₁³,u₂³)`, and the restart system with the identity on length-2 vectors -/
+section nonvacuousFgmres
+open Amgcl.Krylov.ExG Amgcl.Krylov.ExB Amgcl.Krylov.ExF Amgcl.Krylov.ExR
+
+/-- `fgmres_breakdown_exact`, all hypotheses discharged: two passes, breakdown in the second, exact solution -/
+example : residual fg Ab (FGMRES.cycle prmfb stdIp Amgcl.rsqrt Ab Pc (1/4) stfb).x = vclear 3 := by
+  have hj : (FGMRES.inner prmfb stdIp Amgcl.rsqrt Ab Pc (1/4) stfb).j = 2 := by decide +kernel
+  have hin := (finner_eq prmfb Amgcl.rsqrt Ab Pc (1/4) stfb).1
+  refine fgmres_breakdown_exact 3 Ab hAb rfl rfl Pc hPc Amgcl.rsqrt fg prmfb (1/4) (by decide +kernel) stfb hstfb hxfb
+    (by rw [hj]; exact hrootsfb) hAinjb ?_ (by rw [hj]; exact hbfb)
+  rw [hin, hj]
+  exact hindepb
+
+/-- … evaluated independently by the kernel: the call makes `2` iterations, reports `0`, returns `(25/3, −20/3, 0)` -/
+example : (match FGMRES.solve prmfb stdIp Amgcl.rsqrt 0 Ab Pc (FGMRES.Work.fresh 3) fg xg with
+      | .ok (it, res, x, _) => decide (it = 2 ∧ res = 0 ∧ x = #[25/3, -20/3, 0] ∧ residual fg Ab x = vclear 3)
+      | _ => false) = true := by decide +kernel
+
+/-- `fgmres_restart_monotone` on the restart system, all hypotheses discharged -/
+example : ∃ k, k ≤ 2 ∧
+    ∀ i j, i ≤ j → j ≤ k →
+      stdIp (residual fr Ar (fouterPass prmfr Amgcl.rsqrt Ar Pf fr (FGMRES.epsTol prmfr 5) stfr j).x)
+          (residual fr Ar (fouterPass prmfr Amgcl.rsqrt Ar Pf fr (FGMRES.epsTol prmfr 5) stfr j).x)
+        ≤ stdIp (residual fr Ar (fouterPass prmfr Amgcl.rsqrt Ar Pf fr (FGMRES.epsTol prmfr 5) stfr i).x)
+          (residual fr Ar (fouterPass prmfr Amgcl.rsqrt Ar Pf fr (FGMRES.epsTol prmfr 5) stfr i).x) := by
+  obtain ⟨k, hk, _, _, hmono⟩ := fgmres_restart_monotone 2 Ar hAr rfl rfl Pf hPfsz Amgcl.rsqrt fr prmfr
+    0 (FGMRES.Work.fresh 2) xr rfl 5 hpfr (by rw [hepsfr]; decide +kernel)
+    (fun i hi _ => by rw [hepsfr]; exact hrootsfr i hi)
+  exact ⟨k, hk, hmono⟩
+
+/-- the numbers: two cycles, `‖f − A x‖² = 25 > 9 > 81/25` -/
+example : (List.range 3).map (fun k =>
+      stdIp (residual fr Ar (fouterPass prmfr Amgcl.rsqrt Ar Pf fr (1/2) stfr k).x)
+        (residual fr Ar (fouterPass prmfr Amgcl.rsqrt Ar Pf fr (1/2) stfr k).x)) = [25, 9, 81/25] ∧
+    (match FGMRES.solve prmfr stdIp Amgcl.rsqrt 0 Ar Pf (FGMRES.Work.fresh 2) fr xr with
+      | .ok (it, _, x, _) => decide (it = 2 ∧ x = (fouterPass prmfr Amgcl.rsqrt Ar Pf fr (1/2) stfr 2).x)
+      | _ => false) = true := by decide +kernel
+
+end nonvacuousFgmres
 
 end Amgcl.C05c
